@@ -14,6 +14,8 @@ Not decided: where exactly the isclose/allclose tolerances put the acceptance bo
 Added after the seeding rounds (DESIGN.md 6.6-6.8):
  BUFFER-LAYOUT / SHADOW-INIT / REAL-GATE  the buffer handed to ndarray.__new__ is C-contiguous float64 and is what the shadow attribute is bound to; the shared
             validator admits real dtypes only.
+Added after refactoring round 3 (DESIGN.md 6.9):
+ SO3-GATE follows the determinant / Gram / identity parts of the gate through locals, loops and `&`; conditional-expression returns are judged arm by arm.
 """
 import ast
 from sa.facts import Facts
